@@ -193,6 +193,7 @@ func doCall(d *csproto.Decoder, buf []byte, c call, hx bool, x []int, xs [][]int
 			v, err = dd.DecodeBytes()
 			ee.Alloc = int(tr.TotalAlloc() - a0)
 			ee.Val = tr.Bytes(v)
+			lastRaw = v
 		case "String":
 			var v string
 			v, err = dd.DecodeString()
@@ -288,6 +289,7 @@ func doCall(d *csproto.Decoder, buf []byte, c call, hx bool, x []int, xs [][]int
 			v, err = dd.Skip(c.fn, csproto.WireType(c.wt))
 			ee.Alloc = int(tr.TotalAlloc() - a0)
 			ee.Val = tr.Bytes(v)
+			lastRaw = v
 		case "Seek":
 			_, err = dd.Seek(int64(c.i1), c.i2)
 			ee.Alloc = int(tr.TotalAlloc() - a0)
@@ -1095,6 +1097,10 @@ func famSkip(iters int) {
 }
 
 // walkSkip iterates DecodeTag; Skip over b and emits the concatenation check.
+// lastRaw is the slice most recently returned by Skip / DecodeBytes itself (not a copy): results handed out earlier have to stay
+// what they were while the decoder is used further
+var lastRaw []byte
+
 func walkSkip(b []byte, mode int) {
 	buf := mkbuf(b)
 	w.NextGroup()
@@ -1103,6 +1109,7 @@ func walkSkip(b []byte, mode int) {
 		doCall(d, buf, call{op: "SetMode", i1: 1}, false, nil, nil)
 	}
 	var cat []byte
+	var held [][]byte
 	ok := true
 	for d.More() && ok {
 		e := doCall(d, buf, call{op: "Tag"}, false, nil, nil)
@@ -1115,7 +1122,11 @@ func walkSkip(b []byte, mode int) {
 			ok = false
 			break
 		}
-		cat = append(cat, tr.ToBytes(s.Val)...)
+		held = append(held, lastRaw)
+	}
+	// concatenate only now: every raw field is still held by the caller while the later ones are skipped
+	for _, h := range held {
+		cat = append(cat, h...)
 	}
 	st := "ok"
 	if !ok {
